@@ -372,9 +372,9 @@ pub fn run(ctx: &mut Ctx) {
     let max_junk = ctx.tier.pick(6, 10);
     let p = DocParams { max_nodes: ctx.tier.pick(5, 6), globals: vec![ID_TAG, ID_VOID], exclude: vec![], unknown_subsets: true, devs: 0, payload_classes: false, big_payloads: false, noncanonical: false, width_devs: false, extras: true, all_widths: false };
     ctx.meta("rule", "cases: (known-size document, tag boundary b (not the end), junk run, capacity); junk runs = every string up to length 3 over {00, 02, 05, 0f} (bytes that cannot begin any id of V whatever follows: zero byte, 7-, 6- and 5-byte markers) plus structured runs up to the length bound; inserted without adjusting any size field. Independent precondition: following tag's extent + junk length still inside every enclosing known-size master's declared range. If it holds: items before the junk == reference flatten prefix, exactly one error, try_recover() Ok, remaining items == undamaged flatten with offsets >= b shifted by the junk length, clean end. With one master id buffered (junk lengths 1, 2, 5; insertion points not inside, and not directly behind a still open, master of that id): the same with complete buffered masters as Full items before and after the junk. Documents of <= 3 elements additionally with junk runs of 16-40 bytes (zeros, mixed, zero-tailed) over a source whose reads end at / one before / one after the first and the last junk byte, and with 1-byte reads, capacities {default,16,64}. Documents with a 20-45-byte payload (larger than the initial capacity) with junk at every boundary, capacities {0,16,24,40,default}. Always: no panic, try_recover fails only with UnexpectedEOF/ReadError, offsets never move backwards across a recovery. Non-trivial: insertions inside >= 1 known-size master with the precondition true.");
-    ctx.meta("bounds", &format!("documents <= {} elements (+ spines), every boundary, junk length <= {}, capacities {{default,16}}, tolerance {{none, oversized, hierarchy+oversized}}", p.max_nodes, max_junk));
+    ctx.meta("bounds", &format!("documents <= {} elements (+ spines), every boundary, junk length <= {}, capacities {{default,16}}, tolerance {{none, oversized, hierarchy+oversized}}, size limit {{default, exactly the largest declared size}}", p.max_nodes, max_junk));
     ctx.meta("assumptions", "the unconditional clause for arbitrary byte streams and call histories is exercised by C05's history sweep");
-    for c in ["unknown_size_ends_deferred_past_the_junk", "precondition_true_inside_known_master", "precondition_true_root_level", "precondition_false", "buffered_master_after_the_junk", "junk_directly_behind_a_buffered_master", "long_junk_across_read_boundaries", "junk_in_front_of_a_tag_larger_than_the_buffer"] {
+    for c in ["unknown_size_ends_deferred_past_the_junk", "precondition_true_inside_known_master", "precondition_true_root_level", "precondition_false", "buffered_master_after_the_junk", "junk_directly_behind_a_buffered_master", "long_junk_across_read_boundaries", "junk_in_front_of_a_tag_larger_than_the_buffer", "insertions_under_a_tight_size_limit"] {
         ctx.expect_nonzero(c);
     }
     grown_buffer_variants(ctx, &rs);
@@ -410,14 +410,21 @@ pub fn run(ctx: &mut Ctx) {
                 input.extend_from_slice(&bytes[..b]);
                 input.extend_from_slice(junk);
                 input.extend_from_slice(&bytes[b..]);
-                for (cap, allow) in [(None, 0u8), (Some(16), 0), (None, crate::obs::ALLOW_OVERSIZED), (None, crate::obs::ALLOW_HIER | crate::obs::ALLOW_OVERSIZED)] {
+                // a size limit that is exactly the largest size the document declares (the undamaged document reads
+                // under it): recovery stretches the open masters by the junk length, past that limit
+                let tight = lay.iter().map(|k| k.end - k.data_start).max().unwrap_or(0);
+                for (cap, allow, tight_limit) in [(None, 0u8, false), (Some(16), 0, false), (None, crate::obs::ALLOW_OVERSIZED, false), (None, crate::obs::ALLOW_HIER | crate::obs::ALLOW_OVERSIZED, false), (None, 0, true)] {
                     // (tolerating oversized children / hierarchy problems changes nothing here: the junk bytes are not ids
                     // of the specification under any of these settings, and the document itself is valid)
-                    if allow != 0 && junk.len() > 2 && junk.len() != 5 {
+                    if (allow != 0 || tight_limit) && junk.len() > 2 && junk.len() != 5 {
                         continue;
                     }
-                    let cfg = Cfg::strict().with_cap(cap).with_allow(allow);
-                    let d = || format!("doc=[{}] bytes={} junk={} inserted at {} cap={:?} allow={} (precondition {})", docs::doc_short(&rs, doc), hex(&bytes), hex(junk), b, cap, allow, pre);
+                    let mut cfg = Cfg::strict().with_cap(cap).with_allow(allow);
+                    if tight_limit {
+                        cfg.max_size = crate::obs::MaxSize::Limit(tight);
+                        ctx.count("insertions_under_a_tight_size_limit", 1);
+                    }
+                    let d = || format!("doc=[{}] bytes={} junk={} inserted at {} cap={:?} allow={} max={:?} (precondition {})", docs::doc_short(&rs, doc), hex(&bytes), hex(junk), b, cap, allow, cfg.max_size, pre);
                     if !ctx.enter(&d) {
                         continue;
                     }
